@@ -23,6 +23,5 @@ def get_well_position(labware: Labware, well: str) -> int:
         return 1 + c
 
     # Therefore the row number is only relevant for non-trough labware.
-    row = well[0]
     r = labware.row_ids.index(row)
     return 1 + c * labware.n_rows + r
